@@ -109,6 +109,11 @@ def check(run):
         "business; the records are judged as they are after the call",
     ]
 
+    # end-to-end segment: what the real jet1090 prints (filters configured in some scenarios) is one
+    # JSON record per line with the df / icao24 of its frame (clauses c_* of Pipeline.tla, see _e2e.py)
+    from . import _e2e
+    _e2e.segment(run, 40 if run.tier == "thorough" else 8)
+
 
 def replay(run, path):
     rejected, n = dp.replay_cases(run, path, "c07", "trace/Trace_Json")
